@@ -85,7 +85,18 @@ def field_scales(ref, c, xs, ys):
     sv.__dict__.update(ref.__dict__)
     ca = np.abs(c)
     B = ref.basis_at(xs, ys)
-    Ba = {d: ([np.abs(x) for x in B[d][0]], [np.abs(x) for x in B[d][1]]) for d in B}
+    # |basis values| plus a rounding-level share of the conditioning of the polynomial evaluation (the basis functions vanish at
+    # restrained edges, where both the package and the reference return rounding noise of the size eps * sum |monomial terms|)
+    from ..ref import bardell as rb
+    xi = 2 * np.asarray(xs, dtype=float) / ref.a - 1
+    eta = 2 * np.asarray(ys, dtype=float) / ref.b - 1
+    k = 100 * 2.220446049250313e-16 / RTOL
+    Ba = {}
+    for d in B:
+        fxf = [ref.flags['%s%s' % (d, s_)] for s_ in ('1tx', '1rx', '2tx', '2rx')]
+        fyf = [ref.flags['%s%s' % (d, s_)] for s_ in ('1ty', '1ry', '2ty', '2ry')]
+        Ba[d] = ([np.abs(B[d][0][q]) + k * rb.eval_all_cond(xi, q, ref.m, fxf) for q in range(3)],
+                 [np.abs(B[d][1][q]) + k * rb.eval_all_cond(eta, q, ref.n, fyf) for q in range(3)])
     f = lambda dof, dx=0, dy=0: sv.field(ca, xs, ys, dof, dx, dy, Ba)
     w, wx, wy = f('w'), f('w', 1, 0), f('w', 0, 1)
     out = dict(w=w, wx=wx, wy=wy, kxx=f('w', 2, 0), kyy=f('w', 0, 2), kxy=2 * f('w', 1, 1))
